@@ -10,5 +10,6 @@ CONSTANTS
   D5_TimeoutToLastAction = TRUE
   D15_BreakBypassesHold = TRUE
   M_BusyIgnoresSelector = FALSE
+  M_PropagateResetsBusyFirst = TRUE
 INVARIANTS TypeOK StatementOK
 CHECK_DEADLOCK FALSE
